@@ -8,6 +8,7 @@ import warnings
 import numpy as np
 
 from .. import common, sites
+from ..common import f2h, h2f
 from ..main import lean_phase
 from .c04 import hmul
 
@@ -60,6 +61,21 @@ def so3_check(ctx, c, outs):
     # no duplicates (as rotations: q ~ -q); neighbours in a sorted order are enough to expose exact duplicates
     key = np.round(q * np.sign(q[np.arange(len(q)), np.argmax(np.abs(q) > 1e-9, axis=1)])[:, None], 9)
     if len(np.unique(key, axis=0)) != len(q):
+        # classify: Rotation.unique() merges rotations by their products a*a, a*b, ... rounded to 12 decimals.  A pair
+        # (q, -q) computed with 1-ulp differences can straddle a rounding boundary and survive (open finding); any other
+        # surviving duplicate is a different violation
+        _, inv, cnt = np.unique(key, axis=0, return_inverse=True, return_counts=True)
+        dup = np.flatnonzero(cnt[inv.reshape(-1)] > 1)
+        iu = np.triu_indices(4)
+        prod = (q[dup][:, :, None] * q[dup][:, None, :])[:, iu[0], iu[1]]
+        rk = np.round(prod, 12)
+        order = np.lexsort(key[dup].T[::-1])
+        ks, rs = key[dup][order], rk[order]
+        same_rot = (ks[1:] == ks[:-1]).all(axis=1)
+        split = (rs[1:] != rs[:-1]).any(axis=1) & (np.abs(prod[order][1:] - prod[order][:-1]).max(axis=1) < 1e-14)
+        if bool(np.all(split[same_rot])):
+            return (f"sample of {G.name} ({c['method']}, {c['resolution']} deg) contains duplicate rotations: "
+                    f"{int(same_rot.sum())} antipodal pairs whose 12-decimal unique() keys straddle a rounding boundary")
         return f"sample of {G.name} ({c['method']}, {c['resolution']} deg) contains duplicate rotations"
     # covering: every orientation has an equivalent within bound(r) of a grid point
     rng = np.random.default_rng(c["seed"])
@@ -155,11 +171,316 @@ def local_check(ctx, c, outs):
     return None
 
 
+# ====================================================================================================================
+# Lean model of the deterministic S2 meshes (OrixModel/Sampling.lean, driver op `samp`) vs the implementation
+# ====================================================================================================================
+RTOL = 1e-12            # coordinates: relative (absolute below 1) tolerance between model and implementation
+HEMIS = ("both", "upper", "lower")
+GRID_FN = {"normalized": "_edge_grid_normalized_cube", "spherified_edge": "_edge_grid_spherified_edge_cube",
+           "spherified_corner": "_edge_grid_spherified_corner_cube"}
+# resolutions (degrees) at which ceil(360/r), ceil(180/r), ceil(90/r) sit exactly on an integer
+DIVISORS = [1.0, 2.0, 2.5, 3.0, 5.0, 7.5, 10.0, 22.5, 30.0, 45.0, 90.0]
+LARGE = [90.0, 100.0, 120.0, 135.0, 150.0, 180.0, 200.0, 270.0, 360.0, 400.0]
+
+
+def _impl_err(e):
+    if isinstance(e, ZeroDivisionError):
+        return "zerodiv"
+    if isinstance(e, (ValueError, OverflowError, MemoryError)):
+        return "value"
+    raise e
+
+
+def _same_err(model_out, impl_err):
+    """model `!err tag` vs the class of the Python exception"""
+    tag = model_out.split()[1] if model_out.startswith("!err") else None
+    if tag is None or impl_err is None:
+        return tag is None and impl_err is None
+    return (tag == "zerodiv") == (impl_err == "zerodiv")
+
+
+def _close(a, b):
+    a, b = np.asarray(a, float), np.asarray(b, float)
+    if a.shape != b.shape:
+        return False, float("inf")
+    if a.size == 0:
+        return True, 0.0
+    d = np.abs(a - b) / np.maximum(1.0, np.abs(b))
+    return bool(d.max() <= RTOL), float(d.max())
+
+
+def _same_set(A, B):
+    """A, B (n, 3): same set of points within RTOL (a bijection by nearest neighbours)"""
+    from scipy.spatial import cKDTree
+    if A.shape != B.shape:
+        return f"{len(A)} model vectors, {len(B)} implementation vectors", 0.0
+    if len(A) == 0:
+        return None, 0.0
+    d, idx = cKDTree(B).query(A)
+    if d.max() > RTOL:
+        k = int(np.argmax(d))
+        return f"model vector {A[k].tolist()} has no implementation vector within {RTOL} (nearest at {d[k]:.3g})", float(d.max())
+    if len(np.unique(idx)) != len(A):
+        return "the nearest-neighbour matching of model and implementation vectors is not a bijection", float(d.max())
+    return None, float(d.max())
+
+
+def _floats(toks):
+    return np.array([h2f(t) for t in toks], float)
+
+
+def linspace_lines(c):
+    return [f"samp linspace {f2h(c['start'])} {f2h(c['stop'])} {c['num']} {int(c['endpoint'])}"]
+
+
+def linspace_check(ctx, c, outs):
+    want = np.linspace(c["start"], c["stop"], num=c["num"], endpoint=c["endpoint"])
+    got = _floats(outs[0].split())
+    ok, d = _close(got, want)
+    ctx.dev("linspace_rel", d if d != float("inf") else 0.0)
+    if not ok:
+        return f"np.linspace({c['start']}, {c['stop']}, {c['num']}, endpoint={c['endpoint']}) = {want[:4].tolist()}… ({len(want)}), model {got[:4].tolist()}… ({len(got)})"
+    if c["endpoint"] and c["num"] > 1 and got[-1] != c["stop"]:
+        return "model linspace does not end exactly at stop"
+    return None
+
+
+def uvc_lines(c):
+    return [f"samp uv {f2h(c['resolution'])} {c['hemisphere']} {f2h(c['offset'])} {int(c['endpoint'])}"]
+
+
+def uvc_check(ctx, c, outs):
+    from orix.sampling.S2_sampling import _sample_S2_uv_mesh_coordinates as f
+    err = None
+    try:
+        with warnings.catch_warnings():
+            warnings.simplefilter("ignore")
+            az, pol = f(c["resolution"], c["hemisphere"], c["offset"], c["endpoint"])
+    except Exception as e:
+        err = _impl_err(e)
+    if err is not None or outs[0].startswith("!err"):
+        if not _same_err(outs[0], err):
+            return f"_sample_S2_uv_mesh_coordinates{(c['resolution'], c['hemisphere'], c['offset'], c['endpoint'])}: implementation {'raises ' + err if err else 'returns'}, model answers {outs[0][:40]}"
+        return None
+    t = outs[0].split()
+    sa, sp, na, npol = (int(x) for x in t[:4])
+    maz, mpol = _floats(t[4:4 + na]), _floats(t[4 + na:4 + na + npol])
+    if (na, npol) != (len(az), len(pol)):
+        return (f"grid lines at {c['resolution']} deg ({c['hemisphere']}, offset {c['offset']}, endpoint {c['endpoint']}): implementation "
+                f"{len(az)} azimuth x {len(pol)} polar, model {na} x {npol}")
+    if sa != na:
+        return f"model steps_azimuth {sa} != number of azimuth lines {na}"
+    for name, a, b in (("azimuth", maz, az), ("polar", mpol, pol)):
+        ok, d = _close(a, b)
+        ctx.dev(f"uv_{name}_rel", d)
+        if not ok:
+            return f"{name} grid lines differ by {d:.3g} (relative) at {c['resolution']} deg, {c['hemisphere']}, offset {c['offset']}"
+    return None
+
+
+def uvm_lines(c):
+    return [f"samp uvmesh {f2h(c['resolution'])} {c['hemisphere']} {f2h(c['offset'])} {int(c['remove'])} {int(c['full'])}"]
+
+
+def _mesh_compare(ctx, name, c, out, v, ordered):
+    """out: `count [xyz…]`; v: implementation Vector3d"""
+    t = out.split()
+    n = int(t[0])
+    if n != v.size:
+        return f"{name}{tuple(c[k] for k in c if k not in ('full',))}: implementation returns {v.size} vectors, model {n}"
+    if not c["full"]:
+        return None
+    m = _floats(t[1:]).reshape(-1, 3)
+    w = v.data.reshape(-1, 3)
+    if ordered:
+        ok, d = _close(m, w)
+        msg = None if ok else f"{name}: vectors differ by {d:.3g} in grid order"
+    else:
+        msg, d = _same_set(m, w)
+        if msg:
+            msg = f"{name}{tuple(c[k] for k in c if k not in ('full',))}: {msg}"
+    ctx.dev(f"{name}_xyz_abs", d if d != float("inf") else 0.0)
+    return msg
+
+
+def uvm_check(ctx, c, outs):
+    from orix.sampling import sample_S2_uv_mesh
+    err = None
+    try:
+        with warnings.catch_warnings():
+            warnings.simplefilter("ignore")
+            v = sample_S2_uv_mesh(c["resolution"], c["hemisphere"], c["offset"], c["remove"])
+    except Exception as e:
+        err = _impl_err(e)
+    if err is not None or outs[0].startswith("!err"):
+        return None if _same_err(outs[0], err) else f"sample_S2_uv_mesh: implementation {'raises ' + err if err else 'returns'}, model {outs[0][:40]}"
+    if not c["remove"] and v.ndim != 2:
+        return "sample_S2_uv_mesh(remove_pole_duplicates=False) is not a 2-d grid"
+    return _mesh_compare(ctx, "sample_S2_uv_mesh", c, outs[0], v, ordered=not c["remove"])
+
+
+def eac_lines(c):
+    return [f"samp ea {f2h(c['resolution'])} {c['hemisphere']} {int(c['endpoint'])}"]
+
+
+def eac_check(ctx, c, outs):
+    from orix.sampling.S2_sampling import _sample_S2_equal_area_coordinates as f
+    err = None
+    try:
+        with warnings.catch_warnings():
+            warnings.simplefilter("ignore")
+            az, pol = f(c["resolution"], c["hemisphere"], c["endpoint"])
+    except Exception as e:
+        err = _impl_err(e)
+    if err is not None or outs[0].startswith("!err"):
+        return None if _same_err(outs[0], err) else f"_sample_S2_equal_area_coordinates: implementation {'raises ' + err if err else 'returns'}, model {outs[0][:40]}"
+    t = outs[0].split()
+    steps, na, npol = (int(x) for x in t[:3])
+    if (na, npol) != (len(az), len(pol)):
+        return (f"equal-area grid lines at {c['resolution']} deg ({c['hemisphere']}, endpoint {c['endpoint']}): implementation "
+                f"{len(az)} x {len(pol)}, model {na} x {npol}")
+    maz, mpol = _floats(t[3:3 + na]), _floats(t[3 + na:3 + na + npol])
+    ok, d = _close(maz, az)
+    ctx.dev("ea_azimuth_rel", d)
+    if not ok:
+        return f"equal-area azimuth lines differ by {d:.3g}"
+    # arccos near +-1 amplifies one ulp of the cosine to sqrt(ulp): compare the cosines
+    ok, d = _close(np.cos(mpol), np.cos(pol))
+    ctx.dev("ea_cos_polar_rel", d)
+    if not ok:
+        return f"equal-area polar lines differ by {d:.3g} (in cos)"
+    return None
+
+
+def eam_lines(c):
+    return [f"samp eamesh {f2h(c['resolution'])} {c['hemisphere']} {int(c['remove'])} {int(c['full'])}"]
+
+
+def eam_check(ctx, c, outs):
+    from orix.sampling import sample_S2_equal_area_mesh
+    err = None
+    try:
+        with warnings.catch_warnings():
+            warnings.simplefilter("ignore")
+            v = sample_S2_equal_area_mesh(c["resolution"], c["hemisphere"], c["remove"])
+    except Exception as e:
+        err = _impl_err(e)
+    if err is not None or outs[0].startswith("!err"):
+        return None if _same_err(outs[0], err) else f"sample_S2_equal_area_mesh: implementation {'raises ' + err if err else 'returns'}, model {outs[0][:40]}"
+    return _mesh_compare(ctx, "sample_S2_equal_area_mesh", c, outs[0], v, ordered=not c["remove"])
+
+
+def cube_lines(c):
+    return [f"samp cube {c['grid_type']} {f2h(c['resolution'])} {int(c['full'])}"]
+
+
+def cube_check(ctx, c, outs):
+    from orix.sampling import S2_sampling as S, sample_S2_cube_mesh
+    err = None
+    try:
+        with warnings.catch_warnings():
+            warnings.simplefilter("ignore")
+            edge = getattr(S, GRID_FN[c["grid_type"]])(c["resolution"])
+            v = sample_S2_cube_mesh(c["resolution"], c["grid_type"])
+    except Exception as e:
+        err = _impl_err(e)
+    if err is not None or outs[0].startswith("!err"):
+        return None if _same_err(outs[0], err) else (f"sample_S2_cube_mesh({c['resolution']}, {c['grid_type']}): implementation "
+                                                      f"{'raises ' + err if err else 'returns'}, model {outs[0][:40]}")
+    t = outs[0].split()
+    steps, ne, total = (int(x) for x in t[:3])
+    if ne != len(edge) or total != v.size:
+        return (f"sample_S2_cube_mesh({c['resolution']}, {c['grid_type']}): implementation {len(edge)} points per edge and {v.size} "
+                f"vectors, model {ne} and {total} (steps {steps})")
+    if total != 6 * ne * ne + 2:
+        return f"model total {total} != 6*{ne}^2 + 2"
+    if steps > 0 and ne != 2 * steps:
+        return f"model edge points {ne} != 2*steps = {2 * steps}"
+    ok, d = _close(_floats(t[3:3 + ne]), edge)
+    ctx.dev("cube_edge_rel", d)
+    if not ok:
+        return f"edge grid of {c['grid_type']} at {c['resolution']} deg differs by {d:.3g}"
+    if c["full"]:
+        msg, d = _same_set(_floats(t[3 + ne:]).reshape(-1, 3), v.data.reshape(-1, 3))
+        ctx.dev("cube_xyz_abs", d)
+        if msg:
+            return f"sample_S2_cube_mesh({c['resolution']}, {c['grid_type']}): {msg}"
+    return None
+
+
+def hex_lines(c):
+    return [f"samp hex {f2h(c['resolution'])} {int(c['full'])}"]
+
+
+def hex_check(ctx, c, outs):
+    from orix.sampling import sample_S2_hexagonal_mesh
+    err = None
+    try:
+        with warnings.catch_warnings():
+            warnings.simplefilter("ignore")
+            v = sample_S2_hexagonal_mesh(c["resolution"])
+    except Exception as e:
+        err = _impl_err(e)
+    if err is not None or outs[0].startswith("!err"):
+        return None if _same_err(outs[0], err) else (f"sample_S2_hexagonal_mesh({c['resolution']}): implementation "
+                                                      f"{'raises ' + err if err else 'returns'}, model {outs[0][:40]}")
+    t = outs[0].split()
+    steps, total = int(t[0]), int(t[1])
+    if total != v.size:
+        return f"sample_S2_hexagonal_mesh({c['resolution']}): implementation {v.size} vectors, model {total} (steps {steps})"
+    if steps > 0 and total != 6 * steps * steps + 2:
+        return f"model total {total} != 6*{steps}^2 + 2"
+    if c["full"]:
+        msg, d = _same_set(_floats(t[2:]).reshape(-1, 3), v.data.reshape(-1, 3))
+        ctx.dev("hex_xyz_abs", d)
+        if msg:
+            return f"sample_S2_hexagonal_mesh({c['resolution']}): {msg}"
+    return None
+
+
+def s2_any_check(ctx, c, outs):
+    """every deterministic method at every positive resolution returns a non-empty set of unit vectors covering the
+    sphere within the method's bound (also at resolutions on / next to the ceil boundaries and above 90 degrees)"""
+    from orix.sampling import sample_S2
+    try:
+        with warnings.catch_warnings():
+            warnings.simplefilter("ignore")
+            v = sample_S2(c["resolution"], method=c["method"]).data.reshape(-1, 3)
+    except Exception as e:
+        return f"sample_S2({c['resolution']}, method={c['method']!r}) raises {type(e).__name__}: {e}"
+    if len(v) == 0:
+        return f"sample_S2({c['resolution']}, method={c['method']!r}) returns an empty grid"
+    if np.abs(np.linalg.norm(v, axis=1) - 1).max() > 1e-12:
+        return f"sample_S2({c['resolution']}, method={c['method']!r}) returns non-unit vectors"
+    rng = np.random.default_rng(c["seed"])
+    t = rng.normal(size=(c["n_targets"], 3))
+    t[: len(t) // 6, :2] *= 1e-3
+    t[len(t) // 6: len(t) // 3, 2] *= 1e-3
+    t /= np.linalg.norm(t, axis=1, keepdims=True)
+    t = np.concatenate([t, np.eye(3), -np.eye(3)])
+    rad = np.rad2deg(np.arccos(np.clip((t @ v.T).max(axis=1), -1, 1)))
+    worst = float(rad.max())
+    bound = float(S2_BOUND[c["method"]](c["resolution"]))
+    ctx.dev(f"s2_covering_over_bound/{c['method']}", worst / bound)
+    if worst > bound:
+        return (f"covering radius of sample_S2({c['resolution']}, method={c['method']!r}) ({len(v)} vectors) is {worst:.2f} deg > bound "
+                f"{bound:.2f} deg (direction {t[int(np.argmax(rad))].tolist()})")
+    return None
+
+
 SITES = {
     "so3_sample": sites.Site("so3_sample", "prop", so3_check),
     "s2_sample": sites.Site("s2_sample", "prop", s2_check),
     "reduced_sample": sites.Site("reduced_sample", "prop", reduced_check),
     "local_sample": sites.Site("local_sample", "prop", local_check),
+    "linspace": sites.Site("linspace", "corr", linspace_check, linspace_lines),
+    "uv_coordinates": sites.Site("uv_coordinates", "corr", uvc_check, uvc_lines),
+    "uv_mesh": sites.Site("uv_mesh", "corr", uvm_check, uvm_lines),
+    "equal_area_coordinates": sites.Site("equal_area_coordinates", "corr", eac_check, eac_lines),
+    "equal_area_mesh": sites.Site("equal_area_mesh", "corr", eam_check, eam_lines),
+    "cube_mesh": sites.Site("cube_mesh", "corr", cube_check, cube_lines),
+    "hexagonal_mesh": sites.Site("hexagonal_mesh", "corr", hex_check, hex_lines),
+    "s2_any_resolution": sites.Site("s2_any_resolution", "prop", s2_any_check),
 }
 
 
@@ -171,7 +492,100 @@ def _sector_label(case):
     return case.get("group") in bad
 
 
-PREDICATES = {"c19_bad_sector": _sector_label}
+def _tan_above_90(case, what=""):
+    """normalized_cube / hexagonal derive the number of steps from 1/tan(resolution): for 90 < r mod 180 <= 135 degrees the
+    count is 0 and the division `length / number_of_steps` raises"""
+    r = float(case.get("resolution", 0.0)) % 180.0
+    return case.get("method") in ("normalized_cube", "hexagonal") and 90.0 < r < 135.0 + 1e-9 and "ZeroDivisionError" in what
+
+
+def _rounding_split(case, what=""):
+    return case.get("method") == "quaternion" and "straddle a rounding boundary" in str(what)
+
+
+PREDICATES = {"c19_quaternion_rounding_split": _rounding_split, "c19_bad_sector": _sector_label, "c19_tan_above_90": _tan_above_90}
+
+
+def awkward_resolutions(rng):
+    """ceil boundaries (r divides 90/180/360), their neighbours r(1 +- 1e-12), large and small resolutions, seeded ones"""
+    rs = []
+    for d in DIVISORS:
+        rs += [d, d * (1 + 1e-12), d * (1 - 1e-12)]
+    rs += LARGE + [0.5]
+    rs += [180.0 / int(k) for k in rng.integers(2, 200, size=4)]
+    rs += [float(x) for x in rng.uniform(0.8, 60.0, size=4)]
+    rs += [float(x) for x in rng.uniform(60.0, 400.0, size=2)]
+    return [float(r) for r in rs]
+
+
+def generate_s2_model(ctx):
+    rng = ctx.rng
+    quick = ctx.tier == "quick"
+    full_from = 2.9 if quick else 0.9      # below this resolution only the counts are compared (grid too large to ship)
+    rs = awkward_resolutions(rng)
+    offsets = (0.0, 0.5, 0.999)
+
+    def stratum(r):
+        if r >= 90:
+            return "large"
+        if any(abs(r / d - 1) < 1e-9 for d in DIVISORS):
+            return "ceil-boundary" if r in DIVISORS else "next-to-boundary"
+        return "small" if r < 1 else "seeded"
+
+    # np.linspace itself
+    for k in range(60 if quick else 600):
+        a = float(rng.uniform(-10, 10)) if k % 5 else 0.0
+        b = a if k % 7 == 3 else float(rng.uniform(-10, 10))
+        if k % 11 == 5:
+            b = a + 5e-324 * int(rng.integers(1, 9))
+        num = int([0, 1, 2, 3][k % 4] if k % 3 == 0 else rng.integers(0, 60))
+        c = {"start": a, "stop": b, "num": num, "endpoint": bool(k % 2)}
+        ctx.count(f"linspace/{'endpoint' if c['endpoint'] else 'open'}/{'num<=1' if num <= 1 else 'num>1'}", ("ls", a, b, num, k % 2),
+                  nontrivial=num > 0)
+        yield "linspace", c
+    # UV coordinates: every option combination at every awkward resolution
+    for r in rs:
+        for h in HEMIS:
+            for off in offsets:
+                for ep in (False, True):
+                    ctx.count(f"uv_coordinates/{stratum(r)}/{h}", ("uvc", r, h, off, ep))
+                    yield "uv_coordinates", {"resolution": r, "hemisphere": h, "offset": off, "endpoint": ep}
+    ctx.sample({"site": "uv_coordinates", "resolution": rs[1], "hemisphere": "both", "offset": 0.0, "endpoint": False})
+    for r, off in ((0.0, 0.0), (-10.0, 0.0), (-1000.0, 0.0), (float("inf"), 0.0), (7.5, 1.0), (7.5, -0.1)):
+        ctx.count("uv_coordinates/rejected", ("uvc", r, off), nontrivial=False)
+        yield "uv_coordinates", {"resolution": r, "hemisphere": "both", "offset": off, "endpoint": False}
+    # UV mesh: default options and two seeded combinations per resolution
+    for r in rs:
+        combos = [("both", 0.0, True)] + [(HEMIS[int(rng.integers(3))], offsets[int(rng.integers(3))], bool(rng.integers(2)))
+                                          for _ in range(2)]
+        for h, off, rm in combos:
+            ctx.count(f"uv_mesh/{stratum(r)}/{'removed' if rm else 'grid'}", ("uvm", r, h, off, rm))
+            yield "uv_mesh", {"resolution": r, "hemisphere": h, "offset": off, "remove": rm, "full": r >= full_from}
+    # equal-area coordinates and mesh
+    for r in rs:
+        for h in HEMIS:
+            for ep in (False, True):
+                ctx.count(f"equal_area_coordinates/{stratum(r)}", ("eac", r, h, ep))
+                yield "equal_area_coordinates", {"resolution": r, "hemisphere": h, "endpoint": ep}
+        for h, rm in [("both", True), (HEMIS[int(rng.integers(3))], bool(rng.integers(2)))]:
+            ctx.count(f"equal_area_mesh/{stratum(r)}", ("eam", r, h, rm))
+            yield "equal_area_mesh", {"resolution": r, "hemisphere": h, "remove": rm, "full": r >= full_from}
+    # cube meshes and the hexagonal mesh
+    for r in rs:
+        for g in GRID_FN:
+            ctx.count(f"cube_mesh/{g}/{stratum(r)}", ("cube", g, r))
+            yield "cube_mesh", {"grid_type": g, "resolution": r, "full": r >= full_from}
+        ctx.count(f"hexagonal_mesh/{stratum(r)}", ("hex", r))
+        yield "hexagonal_mesh", {"resolution": r, "full": r >= full_from}
+    ctx.sample({"site": "cube_mesh", "grid_type": "normalized", "resolution": 45.0, "full": True})
+    # the property itself on the implementation at the awkward resolutions
+    for r in rs:
+        for m in S2_BOUND:
+            if quick and r < 0.9 and m != "uv":
+                continue
+            ctx.count(f"s2_any_resolution/{m}/{stratum(r)}", ("any", m, r))
+            yield "s2_any_resolution", {"method": m, "resolution": r, "n_targets": 300 if quick else 1500,
+                                        "seed": int(rng.integers(1 << 30))}
 
 
 def generate(ctx):
@@ -202,6 +616,7 @@ def generate(ctx):
             ctx.count(f"local_sample/{m}", ("loc", m, k))
             yield "local_sample", {"method": m, "resolution": 4.0, "width": float(rng.choice([8.0, 15.0])),
                                    "centre": GQ.unit_quat(rng)[0]}
+    yield from generate_s2_model(ctx)
 
 
 def run(ctx, status):
